@@ -33,7 +33,7 @@ structure HState where
   out : List Char := []        -- text already read, most recent first
   rest : List Char
   active : List Region := []   -- aliases being processed, innermost first
-  st : PState := .cmd0 .free
+  st : PState := .cmd0
   toks : List Kind := []
   bp : Bool := false           -- the blank rule already applied to the word that was just replaced here
   deriving Repr
